@@ -3,12 +3,13 @@
 # scratch worktree of /repo, which is bind-mounted over /repo inside a private mount namespace for the duration of the
 # check (used while a long run that reads the real /repo is in progress).  Prints exit code and summary.
 WT=$1; P=$2; C=$3; T=${4:-quick}
+V=$(cd "$(dirname "$0")/.." && pwd)
 cd $WT || exit 2
 git checkout -q -- . ; rm -f tests/demo.rs
 git apply $P || exit 2
-unshare -m bash -c "mount --bind $WT /repo && cd /verif && checks/run $C $T" > /verif/work/mutant_$C.log 2>&1; RC=$?
+unshare -m bash -c "mount --bind $WT /repo && cd $V && checks/run $C $T" > $V/work/mutant_$C.log 2>&1; RC=$?
 git checkout -q -- .
 # the real /repo's files are older than what was just built: make cargo forget the patched build of dryoc
-rm -rf /verif/harness/target/*/debug/.fingerprint/dryoc-* /verif/harness/target/*/release/.fingerprint/dryoc-* /verif/work/c20*/target/debug/.fingerprint/dryoc-* 2>/dev/null
-echo "exit=$RC"; grep "what:" /verif/work/mutant_$C.log | sort | uniq -c | sort -rn | head -5; tail -2 /verif/work/mutant_$C.log
+rm -rf $V/harness/target/*/debug/.fingerprint/dryoc-* $V/harness/target/*/release/.fingerprint/dryoc-* $V/work/c20*/target/debug/.fingerprint/dryoc-* 2>/dev/null
+echo "exit=$RC"; grep "what:" $V/work/mutant_$C.log | sort | uniq -c | sort -rn | head -5; tail -2 $V/work/mutant_$C.log
 exit $RC
